@@ -1,22 +1,3 @@
-//! vh-node: checks over the real node validation / replication code (ant-node) on hand-stepped
-//! swarm drivers, with the harness as scheduler, transport and payment contract.
-mod c03;
-mod c04;
-mod c07;
-mod c09;
-mod payments;
-mod sim;
-
 fn main() {
-    let cfg = vh_core::RunCfg::from_args();
-    match cfg.prop.as_str() {
-        "C03" => c03::run(cfg),
-        "C04" => c04::run(cfg),
-        "C07" => c07::run(cfg),
-        "C09" => c09::run(cfg),
-        other => {
-            eprintln!("vh-node: unknown property {other}");
-            std::process::exit(2);
-        }
-    }
+    vh_node::main_entry()
 }
